@@ -436,3 +436,168 @@ def check_cells(ctx, rule, name, body, result_sites, value_of, atom_map, domain,
     ctx.ob(rule, name + "/table", not bad and ncells > 0, where,
            "abstract evaluation over %d cells of %s: %s" % (ncells, atoms, "all equal to reference table (values %s)" % sorted(map(str, seen_vals)) if not bad else "; ".join(bad)))
     return not bad and not unknown_all
+
+
+def matches_variants(body):
+    """For a closure of the form `|p| matches!(p, A | B(..))`: the set of enum variant labels for which it returns
+    true (None if the closure has another shape)."""
+    trues = set()
+    ds = body.defs.get(0, [])
+    if not ds:
+        return None
+    for d in ds:
+        if d[0] != "stmt":
+            return None
+        e = body.rvalue_expr(d[3])
+        if e[0] != "const" or e[1] not in (0, 1):
+            return None
+        if e[1] == 1:
+            gs = body.guards_on_all_paths(d[1])
+            labs = None
+            for text, labels, _, cond in gs:
+                if text.startswith("discr("):
+                    labs = set(labels) if labs is None else labs & set(labels)
+            if labs is None:
+                return None
+            trues |= labs
+    return trues
+
+
+def closure_of(prog, body, expr):
+    """Body of the closure referenced by a ('closure', def, upvars) expression (searching sub-expressions)."""
+    for s in mir.walk(expr):
+        if s[0] == "closure":
+            return prog.closure_body(body, s[1])
+    return None
+
+
+# ---------------------------------------------------------------------------- path-sensitive cell evaluation
+def cell_paths(body, asg, atom_map, result_bbs, start=0, ignore=r"tracing::|__CALLSITE|level_enabled|^enabled$|Interest::", limit=4000):
+    """Like cell_eval but enumerates the paths of the cell and carries, per path, the site of the last whole
+    assignment to every multi-def local (env: local -> ('stmt'|'call', bb, si)).  Yields (result_bb | None, env, unknown)."""
+    ig = re.compile(ignore)
+    multi = {l for l, ds in body.defs.items() if isinstance(l, int) and len(ds) > 1}
+    out = []
+    unknown = set()
+    stack = [(start, {}, frozenset())]
+    n = 0
+    while stack:
+        b, env, seen = stack.pop()
+        n += 1
+        if n > limit:
+            raise mir.RuleError("cell path budget exceeded in %s" % body.npath)
+        if b in seen:
+            continue
+        seen = seen | {b}
+        # record defs in this block
+        blk = body.blocks[b]
+        env2 = None
+        for si, st in enumerate(blk["stmts"]):
+            if st["k"] == "assign" and "pr" not in st["p"] and st["p"]["l"] in multi:
+                if env2 is None:
+                    env2 = dict(env)
+                env2[st["p"]["l"]] = ("stmt", b, si)
+        t = blk["term"]
+        if t and t["k"] == "call" and "pr" not in t["d"] and t["d"]["l"] in multi:
+            if env2 is None:
+                env2 = dict(env)
+            env2[t["d"]["l"]] = ("call", b, None)
+        if env2 is not None:
+            env = env2
+        if b in result_bbs:
+            out.append((b, env))
+            continue
+        info = body.switch_info(b)
+        if info:
+            cond, labs = info
+            text = render(cond)
+            a = _sym(text, atom_map)
+            if a is not None and a in asg:
+                nxt = [tg for tg, ls in labs.items() if asg[a] in ls]
+                if not nxt:
+                    nxt = [tg for tg, ls in labs.items() if "otherwise" in ls]
+            else:
+                # a switch on a multi-def bool local: evaluate it from the environment
+                v = None
+                if cond[0] == "local" and cond[1] in env:
+                    v = eval_bool(body, cond, asg, env, atom_map)
+                if v is not None:
+                    nxt = [tg for tg, ls in labs.items() if v in ls]
+                else:
+                    if a is None and not ig.search(text):
+                        unknown.add(text[:140])
+                    nxt = list(labs.keys())
+            for tg in nxt:
+                stack.append((tg, env, seen))
+            continue
+        ss = body.succ[b]
+        if not ss:
+            tt = body.blocks[b]["term"]
+            if tt and tt["k"] == "return":
+                out.append((None, env))
+        for s2 in ss:
+            stack.append((s2, env, seen))
+    return out, unknown
+
+
+def eval_bool(body, e, asg, env, atom_map, depth=0):
+    """Evaluate a boolean expression under a cell: returns 'true' / 'false' / None (unknown)."""
+    if depth > 12:
+        return None
+    t = e[0]
+    if t == "const":
+        if e[1] in (0, 1):
+            return "true" if e[1] else "false"
+        return None
+    if t == "un" and e[1] == "Not":
+        v = eval_bool(body, e[2], asg, env, atom_map, depth + 1)
+        return None if v is None else ("false" if v == "true" else "true")
+    if t == "local" and e[1] in env:
+        d = env[e[1]]
+        if d[0] == "stmt":
+            ee = body.rvalue_expr(body.blocks[d[1]]["stmts"][d[2]]["r"])
+        else:
+            ee = body.call_expr(body.blocks[d[1]]["term"], d[1])
+        return eval_bool(body, ee, asg, env, atom_map, depth + 1)
+    a = _sym(render(e), atom_map)
+    if a is not None and a in asg and asg[a] in ("true", "false"):
+        return asg[a]
+    return None
+
+
+def check_cells2(ctx, rule, name, body, result_sites, value_of, atom_map, domain, ref, where="", start=0, allow_unknown=()):
+    """check_cells with path-sensitive evaluation: value_of(site, asg, env) -> value."""
+    ctx.bodies.add(body.npath)
+    by_bb = {}
+    for s in result_sites:
+        by_bb.setdefault(s.bb, []).append(s)
+    atoms = list(domain)
+    bad, unknown_all = [], set()
+    ncells = 0
+    seen_vals = set()
+    for combo in itertools.product(*[domain[a] for a in atoms]):
+        asg = dict(zip(atoms, combo))
+        want = ref(asg)
+        if want is None:
+            continue
+        ncells += 1
+        paths, unk = cell_paths(body, asg, atom_map, set(by_bb), start)
+        unknown_all |= unk
+        vals = set()
+        for b, env in paths:
+            if b is None:
+                vals.add("<no-result>")
+                continue
+            for s in by_bb[b]:
+                vals.add(value_of(s, asg, env))
+        seen_vals |= vals
+        wants = want if isinstance(want, (set, frozenset)) else {want}
+        if vals != wants and len(bad) < 6:
+            bad.append("%s -> got %s want %s" % (asg, sorted(map(str, vals)), sorted(map(str, wants))))
+        elif vals != wants:
+            bad.append("")
+    unknown_all = {u for u in unknown_all if not any(re.search(p, u) for p in allow_unknown)}
+    ctx.ob(rule, name + "/no-unmodelled-guards", not unknown_all, where, "conditions outside the table's atoms: %s" % sorted(unknown_all)[:4])
+    ctx.ob(rule, name + "/table", not bad and ncells > 0, where,
+           "abstract evaluation over %d cells of %s: %s" % (ncells, atoms, "all equal to reference table (values %s)" % sorted(map(str, seen_vals)) if not bad else "; ".join(x for x in bad if x)))
+    return not bad and not unknown_all
